@@ -38,8 +38,11 @@ type c16Scenario struct {
 	Partial bool `json:"caller_stops_reading_early,omitempty"`
 	// Caller: "" = a context the caller can cancel; "background" = context.Background(); "value" = a value
 	// context on top of it: contexts that can never be cancelled by the caller (Done() == nil)
-	Caller   string  `json:"caller_context,omitempty"`
-	Schedule []int32 `json:"schedule,omitempty"`
+	Caller string `json:"caller_context,omitempty"`
+	// EmptyBlob: what the members hold is an empty blob (descriptor size 0, no bytes): an empty stream is a
+	// stream like any other, open until the caller closes it
+	EmptyBlob bool    `json:"empty_blob,omitempty"`
+	Schedule  []int32 `json:"schedule,omitempty"`
 }
 
 type c16Reader struct {
@@ -73,7 +76,7 @@ func (r *c16Reader) Read(p []byte) (int, error) {
 		}
 	}
 	r.reads++
-	if r.reads == 1 && len(p) > 0 {
+	if r.reads == 1 && len(p) > 0 && !r.st.sc.EmptyBlob {
 		p[0] = 'x'
 		return 1, nil
 	}
@@ -95,7 +98,27 @@ func (r *c16Reader) Close() error {
 	return r.closeErr
 }
 func (r *c16Reader) Descriptor() ociregistry.Descriptor {
-	return ociregistry.Descriptor{Size: int64(100 + r.member)}
+	return c16Desc(r.member, r.st.sc.EmptyBlob)
+}
+
+// c16Desc is the descriptor member i answers with: the member is named by the media type (and, for blobs
+// that are not empty, by the size too).
+func c16Desc(i int, empty bool) ociregistry.Descriptor {
+	d := ociregistry.Descriptor{MediaType: fmt.Sprintf("application/vnd.member%d", i), Size: int64(100 + i)}
+	if empty {
+		d.Size = 0
+	}
+	return d
+}
+
+// c16MemberOf: which member a descriptor came from (-1: none).
+func c16MemberOf(d ociregistry.Descriptor) int {
+	for i := 0; i < 2; i++ {
+		if d.MediaType == fmt.Sprintf("application/vnd.member%d", i) && (d.Size == 0 || d.Size == int64(100+i)) {
+			return i
+		}
+	}
+	return -1
 }
 
 type c16State struct {
@@ -189,7 +212,7 @@ func (st *c16State) funcs(i int) *ociregistry.Funcs {
 		if !st.member(ctx, i) {
 			return ociregistry.Descriptor{}, fmt.Errorf("member %d: %w", i, st.failErr[i])
 		}
-		return ociregistry.Descriptor{Size: int64(100 + i)}, nil
+		return c16Desc(i, st.sc.EmptyBlob), nil
 	}
 	return &ociregistry.Funcs{
 		GetBlob_: func(ctx context.Context, repo string, d ociregistry.Digest) (ociregistry.BlobReader, error) {
@@ -265,7 +288,7 @@ func (st *c16State) body(s *vsched.Sched) {
 		if sc.isReader() {
 			desc = rd.Descriptor()
 		}
-		m := int(desc.Size) - 100
+		m := c16MemberOf(desc)
 		st.resultMember = m
 		if m < 0 || m > 1 || !st.succeeded[m] {
 			st.problem("result-not-from-a-successful-member", fmt.Sprintf("descriptor %v", desc))
@@ -397,6 +420,12 @@ func c16Scenarios(thorough bool) []c16Scenario {
 						out = append(out, sc)
 					}
 				}
+			}
+		}
+		// an empty blob in both members, in one, answered at once or held back
+		if strings.HasPrefix(e, "Get") {
+			for _, pair := range [][2]string{{"S", "S"}, {"S", "F"}, {"F", "S"}, {"S", "HS"}, {"HS", "S"}} {
+				out = append(out, c16Scenario{Entry: e, Scripts: pair, EmptyBlob: true}, c16Scenario{Entry: e, Scripts: pair, EmptyBlob: true, Cancel: true})
 			}
 		}
 		// callers that can never cancel: everything the unifier must cancel itself still gets cancelled
